@@ -254,10 +254,9 @@ fn rand_case(depth: u32) -> impl Strategy<Value = RandCase> {
 pub fn run_check(ctx: &Ctx) {
     ctx.set_rule("all operator sequences over + - * / ^ up to the stated length x all binary tree shapes (Catalan), operands from fixed pools, each AST rendered in 32 ways (minimal / full / two redundant parenthesisations x 8 blank layouts incl. no blanks where allowed, double blanks, tabs, leading/trailing blanks); plus `to`/round/floor/ceil variants and random deeper trees; oracle = reference evaluation of the AST; non-trivial = operators of >=2 precedence levels, or a grouped right operand, or nested parentheses, or a non-canonical rendering; distinct by query text");
     ctx.assume("blank policy: + - and `to` always have a blank on both sides; no blank is omitted next to a unit or phrase (a blank next to * or / ends a unit expression in this grammar)");
-    let db = shared_db();
     let corpus: Vec<(String, QCase)> = load_corpus("C06");
     let cases: Vec<QCase> = corpus.into_iter().map(|c| c.1).collect();
-    ctx.run_list("corpus", &cases, |c| judge(db, c), |c| to_json(c));
+    ctx.run_list("corpus", &cases, |c| judge(shared_db(), c), |c| to_json(c));
 
     let maxn = ctx.tier.pick(4usize, 6);
     for n in 1..=maxn {
@@ -273,7 +272,7 @@ pub fn run_check(ctx: &Ctx) {
                 let (e, h) = ast_for(n, a);
                 make_case(&e, r, h)
             },
-            |c| judge(db, c),
+            |c| judge(shared_db(), c),
             |c| to_json(c),
         );
     }
@@ -292,7 +291,7 @@ pub fn run_check(ctx: &Ctx) {
                 let (e, h) = ast_for(n, a);
                 make_case(&variant(e, v, h), r, h)
             },
-            |c| judge(db, c),
+            |c| judge(shared_db(), c),
             |c| to_json(c),
         );
     }
@@ -305,7 +304,7 @@ pub fn run_check(ctx: &Ctx) {
         || rand_case(depth),
         n,
         |c| match make_case(&c.expr, c.r, c.h) {
-            Some(q) => judge(db, &q),
+            Some(q) => judge(shared_db(), &q),
             None => CaseReport::discard("", "reference-unspecified"),
         },
         |c| match make_case(&c.expr, c.r, c.h) {
